@@ -725,7 +725,7 @@ pub fn outcome_text(o: &crate::run::Outcome) -> String {
 
 /// callbacks (and overloaded comparison operators) that read or mutate the container whose
 /// core-library function is running them: product of callback-taking functions x effects
-fn reentrant_programs() -> Vec<String> {
+pub fn reentrant_programs() -> Vec<String> {
     let mut out = vec![];
     let list_effects = ["size l", "l.push 9", "l.pop()", "l.clear()", "l.sort()", "l.extend l", "l.to_tuple()", "l[0] = 5", "l.insert 0, 7", "l.iter().next()", "koto.copy l", "l == l", "'{l}'", "l.reverse()", "l.resize 1, 0"];
     let list_calls = [
